@@ -169,7 +169,7 @@ def generate(seed, tier, cfg):
         "perf_seed": st.workload.randrange(1 << 30) if has_perf else None,
         "programs": programs,
         "schedule": sched.gen_schedule(st.schedule, nclients, nsteps, policy),
-        "knobs": {"policy": policy, "reclimit": k.choice((1000, 1500, 3000)), "profile": profile, "chunk": k.choice((0, 0, 7, 16, 512)), "musical_beat": [i for i in range(nparts) if k.random() < 0.5], "high_staff_words": [i for i in range(nparts) if k.random() < 0.25], "unnumbered_groups": k.random() < 0.4, "custom_mbeats": k.random() < 0.5},
+        "knobs": {"policy": policy, "reclimit": k.choice((1000, 1500, 3000)), "profile": profile, "chunk": k.choice((0, 0, 7, 16, 512)), "musical_beat": [i for i in range(nparts) if k.random() < 0.5], "high_staff_words": [i for i in range(nparts) if k.random() < 0.25], "unnumbered_groups": k.random() < 0.4, "custom_mbeats": k.random() < 0.5, "unnumbered_measures": [i for i in range(nparts) if k.random() < 0.25]},
     }
 
 
@@ -315,6 +315,12 @@ class World(object):
                 while g is not None:
                     g.number = None
                     g = g.parent
+        for i, p in enumerate(self.score.parts):
+            if i in kn.get("unnumbered_measures", ()):
+                # measures without a number (the constructor default; e.g. the second half of a measure split by a repeat)
+                for j, m in enumerate(sorted(p.iter_all(S.Measure), key=lambda m: m.start.t)):
+                    if j % 2 == 1:
+                        m.number = None
         for i, p in enumerate(self.score.parts):
             if i in kn.get("high_staff_words", ()):
                 # an unusual but legal part: the highest staff number is only referenced by a text direction
